@@ -59,6 +59,12 @@ def run(case, prop):
     def L(n):
         return led.get(id(n), EMPTY)
 
+    # The code caps delta~ at 1/2 in the thresholds and at 1 in the U-values; the published rule has no cap
+    # issue once c1*delta/t+ <= 1/2.  Rounds (and stored values) that involve a smaller t+ are not judged.
+    t0 = 1
+    if name in ("HCT", "VHCT"):
+        while R.c1(p["nu"], p["rho"]) * p["delta"] / t0 > 0.5:
+            t0 *= 2
     sparse = bool(case.get("sparse"))  # long runs: the all-cells rules only around powers of two and every 250th round
     prevU = {}
     prev_round = -1
@@ -113,7 +119,9 @@ def run(case, prop):
                             raise Violation("path-stop", "T-HOO pulled the internal cell %s" % lab(cell), t)
                     else:
                         cands = [R.tplus(t)] + ([R.tplus(t - 1)] if t >= 2 else [])
-                        ok = False
+                        ok = min(cands) < t0  # a cap may be active: not judged
+                        if ok:
+                            cands = []
                         why = ""
                         for tp in cands:
                             good = True
@@ -174,14 +182,15 @@ def run(case, prop):
                             raise Violation("depth-bound", "tree depth %d exceeds bound %d + 1" % (part.get_depth(), bound_hi), t)
                     else:
                         T_after = len(L(cell))
+                        capped = R.tplus(t) < t0
                         los, his = [], []
                         for tp in (R.tplus(t), R.tplus(t + 1)):
                             for V in ((V_before, R.variance(L(cell))) if name == "VHCT" else (None,)):
                                 lo, hi = tau_range(name, p, cell, L(cell), tp, V=V)
                                 los.append(lo)
                                 his.append(hi)
-                        must = was_leaf and T_after >= max(his)
-                        mustnot = (not was_leaf) or T_after < min(los)
+                        must = was_leaf and T_after >= max(his) and not capped
+                        mustnot = (not was_leaf) or (T_after < min(los) and not capped)
                         if (must and not expanded) or (mustnot and expanded):
                             raise Violation("expansion-rule", "%s %s %s: leaf=%s, pulls=%d, tau in [%d,%d]" % (
                                 name, "expanded" if expanded else "did not expand", lab(cell), was_leaf, T_after, min(los), max(his)), t)
@@ -215,6 +224,8 @@ def run(case, prop):
                         else:
                             sp = lastpull.get(id(n), 0)
                             tps = sorted(set(R.tplus(x) for x in (max(sp, p2), t, t + 1)))
+                            if tps[0] < t0:
+                                continue  # possibly computed under an active cap
                             want = [u_ref(name, ln, p, h, tp) for tp in tps]
                         if not any(close(u, w) for w in want):
                             raise Violation("U-rule", "%s %s after round %d: U=%r, admissible %r (pulls %d)" % (name, lab(n), t, u, want, len(ln)), t)
